@@ -64,6 +64,9 @@ fn check_build(k: u8) {
     let set_level: bool = kani::any();
     kani::assume(method <= 2);
     kani::assume(chunk >= 1 && chunk <= 4);
+    // documented domain of with_gzip_level (and the property's quantifier): 0..=9. Larger values
+    // reach flate2::Compression::new unchecked, which is outside this crate's contract.
+    kani::assume(level <= 9);
     let (ae, want_gzip) = ae_case(k);
     let m = match method {
         0 => http::Method::GET,
